@@ -379,7 +379,7 @@ def zl(ns):
 def tie_term(t):
   """One engine run as a Coq term for the model replay."""
   pairs = lambda d: core.coq_list(['(%s, %s)' % (core.zlit(a), core.zlit(b)) for a, b in sorted(d.items())])
-  se = core.coq_list(['(%s, %s)' % (core.zlit(a), core.zlit(b)) for a, b in t['se']])
+  se = core.coq_list(['(%s, %s)' % (core.zlit(a), core.zlit(b)) for a, b in t['se']]) if t['se'] else '(@nil (Z * Z))'
   rows = '[' + '; '.join('%d%%nat' % r for r in t['rows']) + ']'
   return '(%s, %s, %s, %s, %s, %s, %s, (%s, %s))' % (
     rows, zl([t['old0']] + t['old']), pairs(t['conv']), pairs(t['set']), se, core.zlit(t['dflt']), zl(t['new']),
